@@ -795,3 +795,58 @@ class _numpy_init_u:
         m = shape_of(o.numpy_bins)[0]
         e = o.numpy_bins
         return Not(forall(0, m - 1, lambda i: e[i] < e[i + 1]))
+
+
+@contract("physt.binnings:BinningBase.bins", props=["C07"], name="binning representations agree[any bin count]")
+class _representations_u:
+    """StaticBinning / NumpyBinning with ANY number (>= 1) of bins: pair view, count, first / last edge and the consecutiveness
+    answer describe the same bins; copy and as_static give equal, independent binnings"""
+    probe = "quantifier-free"
+
+    def configs():
+        return [{"kind": "static"}, {"kind": "numpy"}]
+
+    def inputs(b):
+        n = nbins(b)
+        b.assume(n >= 1)
+        if b.cfg.kind == "static":
+            return dict(self=static_binning_t(b, "B", n))
+        e = b.tarray("B.edges", (n + 1,))
+        b.assume(forall(0, n, lambda i: e[i] < e[i + 1]))
+        return dict(self=b.obj(NPB, _consecutive=True, _bins=None, _numpy_bins=e, _includes_right_edge=True, _adaptive=False))
+
+    def invoke(I, fn, a, cfg):
+        g = (lambda n: I.getattr(a.self, n)) if I is not None else (lambda n: getattr(a.self, n))
+        call = (lambda n, *x: I.call(I.getattr(a.self, n), list(x), {})) if I is not None else (lambda n, *x: getattr(a.self, n)(*x))
+        return {"bins": g("bins"), "bin_count": g("bin_count"), "first_edge": g("first_edge"), "last_edge": g("last_edge"),
+                "is_consecutive": call("is_consecutive"), "copy": call("copy"), "as_static": call("as_static")}
+
+    def _pairs(o):
+        """(left(i), right(i), n) of the binning as built by `inputs`"""
+        if typename(o) == "StaticBinning":
+            bins = attr(o, "_bins")
+            return (lambda i: bins[i, 0]), (lambda i: bins[i, 1]), shape_of(bins)[0]
+        e = attr(o, "_numpy_bins")
+        return (lambda i: e[i]), (lambda i: e[i + 1]), shape_of(e)[0] - 1
+
+    @ensures("pair_view_count_and_outer_edges_agree")
+    def _(a, old, result):
+        l, r, n = _representations_u._pairs(old.self)
+        bins = result["bins"]
+        tol = lambda x, y: absolute(x - y) <= 1e-8 + 1e-5 * absolute(y)
+        cons = forall(0, n - 1, lambda i: tol(l(i + 1), r(i)))
+        return And(shape_of(bins)[0] == n, shape_of(bins)[1] == 2, forall(0, n, lambda i: And(bins[i, 0] == l(i), bins[i, 1] == r(i))),
+                   result["bin_count"] == n, result["first_edge"] == l(0), result["last_edge"] == r(n - 1),
+                   Iff(result["is_consecutive"], cons) if typename(old.self) == "StaticBinning" else result["is_consecutive"] is True)
+
+    @ensures("copy_and_static_twin_are_equal_and_independent")
+    def _(a, old, result):
+        l, r, n = _representations_u._pairs(old.self)
+        c, s = result["copy"], result["as_static"]
+        cl, cr, cn = _representations_u._pairs(c)
+        sb = attr(s, "_bins")
+        return And(c is not a.self, s is not a.self, typename(c) == typename(old.self), typename(s) == "StaticBinning",
+                   cn == n, shape_of(sb)[0] == n,
+                   forall(0, n, lambda i: And(cl(i) == l(i), cr(i) == r(i), sb[i, 0] == l(i), sb[i, 1] == r(i))),
+                   attr(c, "_includes_right_edge") == attr(old.self, "_includes_right_edge"),
+                   attr(s, "_includes_right_edge") == attr(old.self, "_includes_right_edge"))
